@@ -7,14 +7,14 @@ import vlib
 
 def impl_case(text, answers=(), default_answer=None, sys=(), sys_default=None, mode="each",
               strict_cols=False, labels=(), vars=(), hash_threshold=None, engine_name="",
-              make_fail=(), shutdown=False, coltype="default", oracle_texts=(), meta=None, name="t.slt"):
+              make_fail=(), shutdown=False, coltype="default", oracle_texts=(), meta=None, name="t.slt", env=()):
     return {
         "text": text, "answers": list(answers), "default_answer": default_answer,
         "sys": list(sys), "sys_default": sys_default, "mode": mode, "strict_cols": strict_cols,
         "labels": list(labels), "vars": sorted([list(kv) for kv in vars]),
         "hash_threshold": hash_threshold, "engine_name": engine_name,
         "make_fail": list(make_fail), "shutdown": shutdown, "coltype": coltype,
-        "oracle_texts": list(oracle_texts), "meta": meta or {}, "name": name,
+        "oracle_texts": list(oracle_texts), "meta": meta or {}, "name": name, "env": [list(kv) for kv in env],
     }
 
 
@@ -37,6 +37,7 @@ def model_case(case, out):
         case["sys"],
         case["sys_default"] or ["exit", 0, "", ""],
         bool(case["shutdown"]),
+        case.get("env", []),
     ]
 
 
@@ -72,6 +73,8 @@ def observe_impl(case, out):
 
 
 def observe_model(case, mout):
+    if mout == "panic":
+        return {"panic": "model predicts a panic of the implementation"}
     if not isinstance(mout, list):
         return {"model_error": mout}
     o = {"events": canon_events(mout[1])}
